@@ -521,3 +521,153 @@ pub fn c14(rng: &mut Rng, thorough: bool, idx: u64) -> Spec {
     spec.oracles = vec!["c14_reload".into(), "liveness".into()];
     spec
 }
+
+/// C18: histories of logins, failed logins, transactions, checkout failures and clean or abrupt
+/// exits, with barriers at which everything is quiescent and the admin reads the console.
+pub fn c18(rng: &mut Rng, thorough: bool, idx: u64) -> Spec {
+    let exhaustion = idx % 3 == 2;
+    let session = !exhaustion && rng.chance(0.2);
+    // (session mode: one server per connected client, so that nobody queues for a whole connect_timeout)
+    let pool_size = if exhaustion { 1 } else if session { 10 } else { rng.range(2, 4) as u32 };
+    let mut cfg = single_pool(if session { "session" } else { "transaction" }, pool_size, 0);
+    cfg.set("connect_timeout", if exhaustion { 100 } else { 60000 });
+    if exhaustion {
+        cfg.pools[0].extra.push("checkout_failure_limit = 2".into());
+    }
+    if rng.chance(0.5) {
+        cfg.set("server_round_robin", *rng.pick(&["true", "false"]));
+    }
+    let mut clients = Vec::new();
+    let mut roles = serde_json::Map::new();
+    let mut quiet_events: Vec<String> = Vec::new();
+    let mut id = 0u32;
+    let mk = |id: u32, steps: Vec<Step>, start: u64| -> ClientSpec {
+        let mut c = client(id, "app", "db", "apppw", start, steps);
+        c.startup_params = vec![("application_name".into(), format!("cl{}", id))];
+        c
+    };
+    // holders: inside a transaction at the sample
+    let nhold = if exhaustion { 1 } else { rng.range(0, (pool_size as u64 - 1).min(2)) };
+    let _ = session;
+    for _ in 0..nhold {
+        id += 1;
+        let mut p = Prog::new(id);
+        p.new_txn();
+        let t = p.tag();
+        p.simple(format!("BEGIN /* {} */", t));
+        let s = p.select(1, 0, "");
+        p.simple(s);
+        p.steps.push(Step::Emit { ev: format!("c{}.quiet", id) });
+        p.steps.push(Step::Wait { ev: "sample1".into() });
+        let t = p.tag();
+        p.simple(format!("COMMIT /* {} */", t));
+        match rng.below(3) {
+            0 => p.steps.push(Step::Terminate),
+            1 => p.steps.push(Step::Drop { abort: false }),
+            _ => {
+                // leave while holding a server again
+                p.new_txn();
+                let t = p.tag();
+                p.simple(format!("BEGIN /* {} */", t));
+                p.steps.push(Step::Drop { abort: rng.chance(0.5) });
+            }
+        }
+        quiet_events.push(format!("c{}.quiet", id));
+        roles.insert(id.to_string(), serde_json::json!("holder"));
+        clients.push(mk(id, p.steps, rng.range(0, 20)));
+    }
+    // workers: several transactions before and after the sample
+    let nwork = if exhaustion { 0 } else { rng.range(1, if thorough { 4 } else { 3 }) };
+    for _ in 0..nwork {
+        id += 1;
+        let mut p = Prog::new(id);
+        let nn = rng.range(1, 6);
+        worker_prog(&mut p, rng, nn, (1, 30), true);
+        p.steps.push(Step::Emit { ev: format!("c{}.quiet", id) });
+        p.steps.push(Step::Wait { ev: "sample1".into() });
+        let nn = rng.range(0, 4);
+        worker_prog(&mut p, rng, nn, (1, 30), true);
+        match rng.below(4) {
+            0 => p.steps.push(Step::Terminate),
+            1 => p.steps.push(Step::Drop { abort: rng.chance(0.5) }),
+            2 => {
+                p.new_txn();
+                let t = p.tag();
+                p.simple(format!("BEGIN /* {} */", t));
+                let s = p.select(1, 0, "");
+                p.simple(s);
+                p.steps.push(Step::Drop { abort: rng.chance(0.5) });
+            }
+            _ => {
+                p.new_txn();
+                let t = p.tag();
+                p.simple(format!("BEGIN /* {} */", t));
+                p.steps.push(Step::Terminate);
+            }
+        }
+        quiet_events.push(format!("c{}.quiet", id));
+        roles.insert(id.to_string(), serde_json::json!("worker"));
+        clients.push(mk(id, p.steps, rng.range(0, 40)));
+    }
+    // idlers: connected, never ran anything
+    for _ in 0..rng.range(0, 2) {
+        id += 1;
+        let steps = vec![Step::Emit { ev: format!("c{}.quiet", id) }, Step::Wait { ev: "sample1".into() }, if rng.chance(0.5) { Step::Terminate } else { Step::Drop { abort: false } }];
+        quiet_events.push(format!("c{}.quiet", id));
+        roles.insert(id.to_string(), serde_json::json!("idler"));
+        clients.push(mk(id, steps, rng.range(0, 40)));
+    }
+    // failed logins
+    for _ in 0..rng.range(0, 2) {
+        id += 1;
+        let mut c = mk(id, vec![Step::Terminate], rng.range(0, 40));
+        c.auth = "wrong".into();
+        roles.insert(id.to_string(), serde_json::json!("failed_login"));
+        clients.push(c);
+    }
+    if exhaustion {
+        // a client that runs into the checkout failure limit while the only server is held
+        id += 1;
+        let mut p = Prog::new(id);
+        for _ in 0..3 {
+            p.new_txn();
+            let s = p.select(1, 0, "");
+            p.simple(s);
+        }
+        p.steps.push(Step::Terminate);
+        let mut c = mk(id, p.steps, 0);
+        c.start = When::After { ev: "c1.quiet".into(), delay_ms: 5 };
+        roles.insert(id.to_string(), serde_json::json!("kicked"));
+        clients.push(c);
+        quiet_events.push(format!("c{}.done", id));
+    }
+    // the sampling admin
+    let mut a = admin_client(500, "main", When::AtMs { ms: 0 }, &[]);
+    let mut steps = Vec::new();
+    for ev in &quiet_events {
+        steps.push(Step::Wait { ev: ev.clone() });
+    }
+    steps.push(Step::Think { ms: 30 });
+    for cmd in ["SHOW CLIENTS", "SHOW SERVERS", "SHOW POOLS", "SHOW LISTS", "SHOW STATS"] {
+        steps.push(q(cmd.into(), 1));
+    }
+    steps.push(Step::Emit { ev: "sample1".into() });
+    for c in &clients {
+        steps.push(Step::Wait { ev: format!("c{}.done", c.id) });
+    }
+    steps.push(Step::Think { ms: 100 });
+    for cmd in ["SHOW CLIENTS", "SHOW SERVERS", "SHOW POOLS", "SHOW LISTS", "SHOW STATS"] {
+        steps.push(q(cmd.into(), 2));
+    }
+    steps.push(Step::Terminate);
+    a.steps = steps;
+    a.startup_params = vec![("application_name".into(), "sampler".into())];
+    clients.push(a);
+    let net = if rng.chance(0.5) { net_calm() } else { NetSpec { latency_ms: (0, *rng.pick(&[0u64, 1, 2])), ..net_swarm(rng) } };
+    let mut spec = Spec { config_toml: cfg.render(), hosts: cfg.hosts(), net, clients, end: EndSpec { deadline_ms: 900_000, calm_ms: 50 }, ..Default::default() };
+    spec.params = params_from(&cfg);
+    spec.params.insert("c18_roles".into(), serde_json::Value::Object(roles));
+    spec.family = format!("stats/{}{}", if session { "session" } else { "transaction" }, if exhaustion { "/checkout_failure_limit" } else { "" });
+    spec.oracles = vec!["c18_stats".into(), "liveness".into()];
+    spec
+}
